@@ -80,7 +80,7 @@ func c10Gen(r *driver.Rand, thorough bool) *driver.Plan {
 	n = min(n, c10MaxN(mon))
 	if r.Chance(1, 20) {
 		// very many workers, few elements: any fixed internal bound on workers
-		par = driver.Pick(r, 65, 129, 200, 257, 1025)
+		par = driver.Pick(r, 65, 129, 200, 257, 513)
 		n = min(n, 6)
 	}
 	p := c10Plan(r, mon, par, n)
